@@ -335,7 +335,8 @@ def is_ptr_ty(t):
 
 
 class PointsTo:
-    """Andersen-style, flow- and context-insensitive, object-granular (one content set per object)."""
+    """Andersen-style, flow- and context-insensitive. Object contents are keyed by byte offset when the accessing address is syntactically
+    `object + constant` (an alloca, a by-value parameter copy, a global); every other access uses the key '*', which aliases all offsets."""
 
     def __init__(self, prog):
         self.prog = prog
@@ -346,6 +347,7 @@ class PointsTo:
         self.memcpys = []   # (dst node, src node)
         self.icalls = []    # (fn, inst, callee node)
         self.bsearch = []   # (fn, inst)
+        self.keys = collections.defaultdict(set)    # object -> content keys in use
         self._build()
         self._solve()
 
@@ -374,9 +376,9 @@ class PointsTo:
         def walk(tree, obj):
             k = tree['k']
             if k in ('gref',):
-                self.pts[('content', obj)].add(('global', tree['name']))
+                self._c(obj, '*').add(('global', tree['name']))
             elif k == 'fref':
-                self.pts[('content', obj)].add(('func', tree['name']))
+                self._c(obj, '*').add(('func', tree['name']))
             elif k == 'struct':
                 for f in tree['fields']: walk(f['v'], obj)
             elif k == 'array':
@@ -390,8 +392,13 @@ class PointsTo:
                     if is_ptr_ty(p['ty']):
                         e = ('ext', f.name, n); e2 = ('extdeep', f.name, n)
                         self.pts[('p', f.name, n)].add(e)
-                        self.pts[('content', e)].add(e2)
-                        self.pts[('content', e2)].add(e2)
+                        self._c(e, '*').add(e2)
+                        self._c(e2, '*').add(e2)
+                        if p['ty'] == '%' + LANG_STRUCT + '*':
+                            # API contract: language handles come from polyseed_get_lang, i.e. they are the library's own tables
+                            for g in P.globals.values():
+                                if g['ty'] == '%' + LANG_STRUCT and not g.get('decl'):
+                                    self.pts[('p', f.name, n)].add(('global', g['name']))
             for i in f.all_insts():
                 dst = ('v', f.name, i.id)
                 if i.op == 'alloca':
@@ -407,13 +414,18 @@ class PointsTo:
                     for v in i.ops[1:]:
                         s = self.node(f, v)
                         if s: self.copy[s].add(dst)
+                elif i.op in ('extractvalue', 'insertvalue'):
+                    # aggregates passed/returned by value: field-insensitive - the aggregate may hold whatever any of its parts holds
+                    for v in i.ops:
+                        s = self.node(f, v)
+                        if s: self.copy[s].add(dst)
                 elif i.op == 'load':
                     a = self.node(f, i.ops[0])
                     if a and (is_ptr_ty(i.d['ty']) or i.d['bits'] == 64):
-                        self.loads.append((dst, a))
+                        self.loads.append((dst, a, self._fkey(f, i.ops[0])))
                 elif i.op == 'store':
                     a = self.node(f, i.ops[1]); s = self.node(f, i.ops[0])
-                    if a and s: self.stores.append((a, s))
+                    if a and s: self.stores.append((a, s, self._fkey(f, i.ops[1])))
                 elif i.op == 'ret':
                     if i.ops:
                         s = self.node(f, i.ops[0])
@@ -426,7 +438,7 @@ class PointsTo:
                             self._bind(f, i, cal)
                         elif cal.startswith('llvm.memcpy') or cal.startswith('llvm.memmove') or cal in ('memcpy', 'memmove'):
                             d = self.node(f, i.ops[0]); s = self.node(f, i.ops[1])
-                            if d and s: self.memcpys.append((d, s))
+                            if d and s: self.memcpys.append((d, s, self._fkey(f, i.ops[0]), self._fkey(f, i.ops[1])))
                             if d: self.copy[d].add(dst)
                         elif cal == 'bsearch':
                             self.bsearch.append((f, i))
@@ -449,6 +461,12 @@ class PointsTo:
         g = self.prog.defined[cal]
         for n, a in enumerate(i.ops[:len(g.params)]):
             s = self.node(f, a)
+            if g.params[n].get('byval'):
+                # the callee receives a private copy of the caller's object
+                obj = ('byval', cal, n)
+                self.pts[('p', cal, n)].add(obj)
+                if s: self.memcpys.append((('p', cal, n), s, 0, self._fkey(f, a)))
+                continue
             if s: self.copy[s].add(('p', cal, n))
         self.copy[('ret', cal)].add(('v', f.name, i.id))
 
@@ -474,18 +492,29 @@ class PointsTo:
                     if addall(d, ps):
                         changed = True
                         if d in self.copy: wl.append(d)
-            for dst, a in self.loads:
+            for dst, a, key in self.loads:
                 for o in list(self.pts.get(a, ())):
-                    if addall(dst, self.pts.get(('content', o), set())): changed = True
-            for a, s in self.stores:
+                    if key == '*':
+                        if addall(dst, self.content(o)): changed = True
+                    else:
+                        if addall(dst, self.pts.get(('content', o, key), set()) | self.pts.get(('content', o, '*'), set())): changed = True
+            for a, s, key in self.stores:
                 ps = self.pts.get(s)
                 if not ps: continue
                 for o in list(self.pts.get(a, ())):
-                    if addall(('content', o), ps): changed = True
-            for d, s in self.memcpys:
+                    self.keys[o].add(key)
+                    if addall(('content', o, key), ps): changed = True
+            for d, s, dkey, skey in self.memcpys:
                 for od in list(self.pts.get(d, ())):
                     for os_ in list(self.pts.get(s, ())):
-                        if addall(('content', od), self.pts.get(('content', os_), set())): changed = True
+                        if dkey == 0 and skey == 0:
+                            # whole-object copy from base to base: offsets are preserved
+                            for k in list(self.keys.get(os_, ())):
+                                self.keys[od].add(k)
+                                if addall(('content', od, k), self.pts.get(('content', os_, k), set())): changed = True
+                        else:
+                            self.keys[od].add('*')
+                            if addall(('content', od, '*'), self.content(os_)): changed = True
             for f, i, c in self.icalls:
                 for o in list(self.pts.get(c, ())):
                     if o[0] == 'func' and o[1] in self.prog.defined and (f.name, i.id, o[1]) not in bound:
@@ -511,7 +540,27 @@ class PointsTo:
         return self.pts.get(n, set())
 
     def content(self, obj):
-        return self.pts.get(('content', obj), set())
+        out = set()
+        for k in self.keys.get(obj, ()): out |= self.pts.get(('content', obj, k), set())
+        return out
+
+    def _c(self, obj, key):
+        self.keys[obj].add(key)
+        return self.pts[('content', obj, key)]
+
+    def _fkey(self, f, v):
+        """byte offset of address v inside the object it points to, when v is syntactically `root + constant` with root an alloca, a by-value
+        parameter copy or a global (the only cases in which the address has exactly one target and a known offset); '*' otherwise"""
+        r, off = strip_casts(f, v)
+        if off is None: return '*'
+        if r['k'] == 'i':
+            ri = f.insts.get(r['id'])
+            if ri is not None and ri.op == 'alloca': return off
+        elif r['k'] == 'a':
+            if f.params[r['n']].get('byval'): return off
+        elif r['k'] == 'g':
+            return off + r.get('off', 0)
+        return '*'
 
 
 # ---------- small helpers used by several rules
